@@ -218,3 +218,10 @@ Example C09_model_history_example :
   map h_evs (mrun (fun _ _ _ => None) {| params := []; default := 1 |} d xs)
     = [[ERename (LFile (str "alice.user")) (LFile (str "alice.admin"))]; [EFsync LBaseDir]].
 Proof. vm_compute. split; reflexivity. Qed.
+
+(* ---- the model's state space is the code's declared state ----
+   (theories/StateInst.v: package-level variables and struct fields listed by tools/facts on every
+   run; the models keep no state between operations other than these components) *)
+From Whawty Require StateInst.
+Theorem C09_store_state_inventory : StateInst.store_state_inventory.
+Proof. exact StateInst.store_state_inventory_holds. Qed.
